@@ -8,8 +8,9 @@ EXPLANATION = (
     "return-correlated effect summaries, each loop back edge taken at most once more, explored as an explicit-state search "
     "with visited-state pruning) that ends in `return Err` must have undone every write to a field of self by one of the "
     "repository's idioms: (i) whole-field backup restored from a snapshot that dominates all writes, (ii) undo log: "
-    "`log.push((x, F.get(x)))` immediately before `F.set(x, ..)` and a verified reverse-replay helper on the tail, "
-    "(iii) no write at all. RNG-typed fields are exempt (trait doc: internal state may change). Also: `other` is `&Self` "
+    "`log.push((x, F.get(x)))` paired with `F.set(x, ..)` and a verified reverse-replay helper on the tail, "
+    "(iii) no write at all. (For (ii) the push may come directly before or directly after the store: the old value is read before "
+    "the store either way — C01's kick-loop rule decides that read.) RNG-typed fields are exempt (trait doc: internal state may change). Also: `other` is `&Self` "
     "without interior mutability (type tree)."
 )
 NOT_DECIDED = "nothing in the state clause; RNG state advancing on a failed cuckoo insert is explicitly allowed by the trait."
@@ -118,12 +119,53 @@ def check_mutator(ctx, m, exempt, helpers):
     n_exit = [0]
 
     # state: (dirty frozenset((field, where)), logged frozenset((field, logroot)), pending push or None)
-    init = (frozenset(), frozenset(), None)
+    init = (frozenset(), frozenset(), None, frozenset(), frozenset())   # dirty, logged, pending, logs with entries (field, log), stale (field, log)
 
     def site_of(ev):
         return "%s@%s:%d" % (ev.get("origin_fn", "?").split("::")[-1], ev["span"]["file"].split("/")[-1], ev["span"]["line"])
 
+    def log_push_of(ev):
+        """(field, log root) if ev is `log.push((x, self.F.get(x)))`"""
+        if ev["kind"] == "write" and self_field(ev) is None and ev.get("name") == "push" and len(ev["args"]) == 2 and ev["args"][1][0] == "tuple" and len(ev["args"][1][1]) == 2:
+            x, old = ev["args"][1][1]
+            if old[0] == "call" and old[1].endswith("::get") and len(old[2]) == 2 and old[2][1] == x:
+                f_old = self_field_term(old[2][0])
+                if f_old is not None:
+                    return (f_old, ev["root"])
+        return None
+
+    def snapshot_restore_of(ev):
+        if ev["kind"] != "write" or ev.get("via"):
+            return None
+        fld = self_field(ev)
+        if fld is None:
+            return None
+        if ev["how"] == "store" and len(ev["path"]) == 1 and ev.get("value") is not None and self_field_term(ev["value"]) == fld:
+            return fld
+        if ev["how"] == "call" and ev.get("name") in ("swap", "replace") and len(ev["args"]) == 2 and self_field_term(ev["args"][1 - ev.get("argi", 0)]) == fld:
+            return fld
+        return None
+
     def step(state, ev):
+        d_, l_, p_, filled, stale = state
+        nd, nl, np_ = step3((d_, l_, p_), ev)
+        lp = log_push_of(ev)
+        if lp is not None:
+            filled = filled | {lp}
+        sr = snapshot_restore_of(ev)
+        if sr is not None:
+            # the field is back to its snapshot, but logs filled since then still hold values from the aborted work
+            stale = stale | frozenset(x for x in filled if x[0] == sr)
+        if ev["kind"] == "call" and ev["callee"] in helpers:
+            h = helpers[ev["callee"]]
+            pa = ev["ptr_args"]
+            root = pa[1][1].root if (len(pa) > 1 and pa[1] is not None and pa[1][1] is not None) else None
+            if (h["field"], root) in stale:
+                write_sites.setdefault(h["field"], set())
+                nd = nd | {(h["field"], "replay of a stale undo log over the restored snapshot @%s:%d" % (ev["span"]["file"].split("/")[-1], ev["span"]["line"]))}
+        return (nd, nl, np_, filled, stale)
+
+    def step3(state, ev):
         dirty, logged, pend = state
         k = ev["kind"]
         if k == "call":
@@ -146,7 +188,10 @@ def check_mutator(ctx, m, exempt, helpers):
                 if old[0] == "call" and old[1].endswith("::get") and len(old[2]) == 2 and old[2][1] == x:
                     f_old = self_field_term(old[2][0])
                 if f_old is not None:
-                    return (dirty, logged, (ev["root"], x, f_old))
+                    if pend is not None and pend[0] == "set" and pend[2] == x and pend[3] == f_old and pend[1] in dirty:
+                        # `F.set(x, new); log.push((x, old))`: same pairing, other order
+                        return (dirty - {pend[1]}, logged | {(f_old, ev["root"])}, None)
+                    return (dirty, logged, ("push", ev["root"], x, f_old))
             return (dirty, logged, pend) if ev["root"][0] != "param" else (dirty, logged, None)
         if fld in exempt:
             return state
@@ -167,12 +212,15 @@ def check_mutator(ctx, m, exempt, helpers):
                 logged = frozenset(x for x in logged if x[0] != fld)
                 return (dirty, logged, None)
         # a real write
-        site_bb = ev["bb"] if not ev.get("via") else None
         write_sites[fld].add((ev.get("via", ()), ev["bb"]))
-        if pend is not None and ev.get("name") == "set" and len(ev["args"]) == 3 and pend[2] == fld and ev["args"][1] == pend[1]:
-            logged = logged | {(fld, pend[0])}
+        if pend is not None and pend[0] == "push" and ev.get("name") == "set" and len(ev["args"]) == 3 and pend[3] == fld and ev["args"][1] == pend[2]:
+            logged = logged | {(fld, pend[1])}
             return (dirty, logged, None)
-        dirty = dirty | {(fld, site_of(ev))}
+        entry = (fld, site_of(ev))
+        dirty = dirty | {entry}
+        if ev.get("name") == "set" and len(ev["args"]) == 3:
+            # the log entry may also be pushed right AFTER the store (the old value was read before): remember the store
+            return (dirty, logged, ("set", entry, ev["args"][1], fld))
         return (dirty, logged, None)
 
     def on_exit(state, q):
@@ -191,7 +239,7 @@ def check_mutator(ctx, m, exempt, helpers):
 
     # collect violations per field
     bad = {}
-    for (dirty, logged, _), q in err_states:
+    for (dirty, logged, _, _f, _s), q in err_states:
         for (fld, where) in dirty:
             bad.setdefault(fld, {"unlogged": set(), "unreplayed": set(), "q": q})["unlogged"].add(where)
         for (fld, root) in logged:
